@@ -660,9 +660,17 @@ void mon_inbound(const Run& run, const Ix&, Verdicts& v, vu::Result& res) {
             bool failed_write = w.done && w.result && k.reached_broker;
             // was the PUBREL of this exchange consumed by a left-over exchange of a lost session that used the same packet id?
             bool stale = false;
+            // (the older exchange x used the same id, a session was lost between the two first transmissions, and x's message
+            // came out of async_receive only after this message had been sent: x's waiter answered this exchange's PUBREL)
             if (m.qos == 2 && !m.pub_bpkts.empty() && m.pub_bpkts[0] >= 0)
-                for (auto& x : out)
-                    if (x.id != m.id && x.qos == 2 && x.pid == m.pid && x.st == OutMsg::abandoned && count[x.id] && first_delivery[x.id] > h.bpkts[m.pub_bpkts[0]].seq) stale = true;
+                for (auto& x : out) {
+                    if (x.id == m.id || x.qos != 2 || x.pid != m.pid || !count[x.id] || x.pub_bpkts.empty() || x.pub_bpkts[0] < 0) continue;
+                    uint64_t sx = h.bpkts[x.pub_bpkts[0]].seq, sm = h.bpkts[m.pub_bpkts[0]].seq;
+                    if (sx >= sm || first_delivery[x.id] <= sm) continue;
+                    bool lost_between = x.st == OutMsg::abandoned;
+                    for (auto& c : h.conns) if (c.connack_sent && c.connack_rc == 0 && !c.session_present && c.seq_begin > sx && c.seq_begin < sm) lost_between = true;
+                    if (lost_between) stale = true;
+                }
             if (stale) failed_write = false;
             v.add("C04", std::string("C04:acknowledged-but-never-delivered:qos") + char('0' + m.qos) + (failed_write ? ":ack-reached-broker-but-write-reported-failed" : "") +
                              (stale ? ":pubrel-consumed-by-stale-exchange-of-lost-session" : ""),
